@@ -187,11 +187,17 @@ Definition prog2 (s2 : cstate) (it : citer) : cstate * list cobs :=
   (set_conn (set_overall s2 (hp_val s2 (i_prog2 it))) true,
    [CGetStart (highest s2) (negb (conn_open s2)); CSend (hp_val s2 (i_prog2 it))]).
 
+(* the state in which the received event is handled: the head state, except that a connection
+   that died at this message boundary reports closed *)
+Definition recv_state (s : cstate) (it : citer) : cstate :=
+  if i_dies it then set_conn (head_state s it) false else head_state s it.
+
 Definition ev_step (s2 : cstate) (it : citer) : cstate * list cobs :=
   match i_ev it with
   | ETimeout => if i_pclosed2 it then fatal s2 [] else prog2 s2 it
   | EClosedErr => (set_conn s2 false, [])
-  | EOtherErr | EUnexpected | EKeepaliveBad => fatal s2 []
+  | EOtherErr => if i_dies it then (s2, []) else fatal s2 []
+  | EUnexpected | EKeepaliveBad => fatal s2 []
   | ENil | ECopyOther | EParam => (s2, [])
   | EErrorResponse x => recover s2 x
   | EKeepalive _ false _ => (s2, [])
@@ -208,12 +214,12 @@ Definition ev_step (s2 : cstate) (it : citer) : cstate * list cobs :=
 Lemma cstep_eq s it : cstep s it =
   if stopped s then (s, []) else
   if i_pclosed it then (stop s, [CClose; CStop]) else
-  let '(s3, o3) := ev_step (head_state s it) it in (s3, head_out s it ++ o3).
+  let '(s3, o3) := ev_step (recv_state s it) it in (s3, head_out s it ++ o3).
 Proof.
   unfold cstep. destruct (stopped s); [reflexivity|].
   destruct (i_pclosed it); [rewrite hp_closed; reflexivity|].
-  rewrite hp_shape. unfold head_out, head_sends, ev_step, head_state, prog2.
-  destruct (hp_upd s (i_prog it) || i_tick it); unfold get_start;
+  rewrite hp_shape. unfold head_out, head_sends, ev_step, recv_state, head_state, prog2.
+  destruct (hp_upd s (i_prog it) || i_tick it); unfold get_start; destruct (i_dies it);
     (destruct (i_ev it) as [w k| w [|] sl | | | | | | x | | |]; try reflexivity;
      [ destruct k; unfold handle_xlog, write_loop, fatal; simpl; try reflexivity;
        try (destruct (saw_commit s), (first_iter s); simpl; try reflexivity);
@@ -237,6 +243,24 @@ Lemma head_state_fields s it :
   hb_slow (head_state s it) = hb_slow s /\ begins (head_state s it) = begins s /\
   stopped (head_state s it) = stopped s.
 Proof. unfold head_state. simpl. repeat split. Qed.
+
+Lemma recv_state_fields s it :
+  overall (recv_state s it) = hp_val s (i_prog it) /\ highest (recv_state s it) = highest s /\
+  ctxn (recv_state s it) = ctxn s /\ ckey (recv_state s it) = ckey s /\
+  saw_commit (recv_state s it) = saw_commit s /\ first_iter (recv_state s it) = first_iter s /\
+  conn_open (recv_state s it) = negb (i_dies it) /\ hb_count (recv_state s it) = hb_count s /\
+  hb_slow (recv_state s it) = hb_slow s /\ begins (recv_state s it) = begins s /\
+  stopped (recv_state s it) = stopped s.
+Proof. unfold recv_state. destruct (i_dies it); simpl; repeat split. Qed.
+
+Lemma recv_highest s it : highest (recv_state s it) = highest s.
+Proof. apply recv_state_fields. Qed.
+Lemma recv_conn_open s it : conn_open (recv_state s it) = negb (i_dies it).
+Proof. apply recv_state_fields. Qed.
+Lemma recv_stopped s it : stopped (recv_state s it) = stopped s.
+Proof. apply recv_state_fields. Qed.
+Lemma recv_overall s it : overall (recv_state s it) = hp_val s (i_prog it).
+Proof. apply recv_state_fields. Qed.
 
 Lemma head_out_shape s it : exists pre, head_out s it = pre ++ [CRecv] /\
   (forall x, In x pre -> (exists f, x = CGetStart (highest s) f) \/ x = CSend (hp_val s (i_prog it))) /\
@@ -263,8 +287,8 @@ Lemma cstep_pclosed s it : stopped s = false -> i_pclosed it = true -> cstep s i
 Proof. intros H1 H2. rewrite cstep_eq, H1, H2. reflexivity. Qed.
 
 Lemma cstep_consumed s it : stopped s = false -> i_pclosed it = false ->
-  cstep s it = (fst (ev_step (head_state s it) it), head_out s it ++ snd (ev_step (head_state s it) it)).
-Proof. intros H1 H2. rewrite cstep_eq, H1, H2. destruct (ev_step (head_state s it) it). reflexivity. Qed.
+  cstep s it = (fst (ev_step (recv_state s it) it), head_out s it ++ snd (ev_step (recv_state s it) it)).
+Proof. intros H1 H2. rewrite cstep_eq, H1, H2. destruct (ev_step (recv_state s it) it). reflexivity. Qed.
 
 (* case analysis of one iteration: H : cstep s it = (s', o) *)
 Ltac step3 H :=
@@ -409,7 +433,7 @@ Lemma cstep_acks_fine s it s' o :
                                    In a (blocked_values (i_blocked it))).
 Proof.
   intros H R Pc. rewrite (cstep_consumed _ _ R Pc) in H. inversion H; subst; clear H.
-  exists (removelast (head_out s it)), (snd (ev_step (head_state s it) it)).
+  exists (removelast (head_out s it)), (snd (ev_step (recv_state s it) it)).
   assert (Hh : head_out s it = removelast (head_out s it) ++ [CRecv]).
   { unfold head_out. rewrite removelast_last. reflexivity. }
   split; [rewrite Hh at 1; rewrite <- app_assoc; reflexivity|].
@@ -420,14 +444,15 @@ Proof.
     destruct (head_sends s it); simpl; [|tauto].
     intros [<-|[]]. apply hp_val_source.
   - intros a. pose proof (hp_val_source s (i_prog it)) as S1.
-    pose proof (hp_val_source (head_state s it) (i_prog2 it)) as S2.
-    assert (O : overall (head_state s it) = hp_val s (i_prog it)) by reflexivity. rewrite O in S2.
+    pose proof (recv_state_fields s it) as (O & _).
+    pose proof (hp_val_source (recv_state s it) (i_prog2 it)) as S2. rewrite O in S2.
+    revert O S2. generalize (recv_state s it). intros s2 O S2.
     unfold ev_step, prog2.
-    revert S2. generalize (hp_val (head_state s it) (i_prog2 it)) as c2. intros c2 S2.
+    revert S2. generalize (hp_val s2 (i_prog2 it)) as c2. intros c2 S2.
     ev_an; rewrite ?acks_app; simpl; try tauto;
     first [ intros [<-|[]]; destruct S2 as [->|?]; tauto
           | intros I; rewrite ?app_nil_r in I; apply bt_obs_source in I;
-            cbn [overall head_state set_conn set_overall] in I;
+            cbn [overall] in I; rewrite ?O in I;
             destruct I as [->|I]; [destruct S1 as [->|S1]; tauto|tauto] ].
 Qed.
 
@@ -454,7 +479,7 @@ Lemma cstep_highest s it :
 Proof.
   destruct (stopped s) eqn:R; [rewrite cstep_stopped by assumption; reflexivity|].
   destruct (i_pclosed it) eqn:Pc; [rewrite cstep_pclosed by assumption; reflexivity|].
-  rewrite cstep_consumed by assumption. simpl. rewrite ev_step_highest. reflexivity.
+  rewrite cstep_consumed by assumption. simpl. rewrite ev_step_highest, recv_highest. reflexivity.
 Qed.
 
 Lemma cstep_highest_cases s it s' o : cstep s it = (s', o) ->
@@ -488,25 +513,75 @@ Proof.
   end.
 Qed.
 
+(* every connection request made before the receive carries highestWalStart as it was at the loop
+   head; every one made after it (second handleProgress of a timeout / keepalive reply, ticks of the
+   blocked-output loop) carries highestWalStart as updated by the received event - the received
+   COMMIT included.  A request after the receive issues START_REPLICATION only if the connection
+   died at this message boundary. *)
+Lemma ev_out_getstart_hi s2 it l f : In (CGetStart l f) (snd (ev_step s2 it)) ->
+  l = hi_ev (highest s2) (i_ev it) /\ (f = true -> conn_open s2 = false).
+Proof.
+  ev_an; intros H;
+  in_split_k H ltac:(fun H => apply bt_obs_getstart in H; cbn [highest conn_open] in H;
+                              destruct H as (-> & Hf & Hne));
+  try discriminate H;
+  try (inversion H; subst; split; [reflexivity|now destruct (conn_open s2)]);
+  (split; [|exact Hf]); unfold hi_ev; try reflexivity;
+  match goal with
+  | Hlt : (highest _ <? _)%N = true |- _ => apply N.ltb_lt in Hlt; lia
+  | Hge : (highest _ <? _)%N = false |- _ => apply N.ltb_ge in Hge; lia
+  end.
+Qed.
+
+Lemma cstep_getstart_split s it s' o :
+  cstep s it = (s', o) -> stopped s = false -> i_pclosed it = false ->
+  exists pre post, o = pre ++ CRecv :: post /\ ~ In CRecv pre /\ ~ In CRecv post /\
+    (forall l f, In (CGetStart l f) pre -> l = highest s /\ (f = true -> conn_open s = false)) /\
+    (forall l f, In (CGetStart l f) post ->
+       l = hi_ev (highest s) (i_ev it) /\ (f = true -> i_dies it = true)).
+Proof.
+  intros H R Pc. rewrite (cstep_consumed _ _ R Pc) in H. inversion H; subst; clear H.
+  destruct (head_out_shape s it) as (pre & E & P & Pf).
+  exists pre, (snd (ev_step (recv_state s it) it)).
+  split; [rewrite E, <- app_assoc; reflexivity|].
+  split; [|split; [apply ev_out_no_recv|split]].
+  - intros I. destruct (P _ I) as [[f E']|E']; discriminate E'.
+  - intros l f I. split.
+    + destruct (P _ I) as [[f' E']|E']; inversion E'; reflexivity.
+    + intros ->. eapply Pf; exact I.
+  - intros l f I. apply ev_out_getstart_hi in I. rewrite recv_highest, recv_conn_open in I.
+    destruct I as [El Ff]. split; [exact El|]. intros Hf. specialize (Ff Hf).
+    destruct (i_dies it); [reflexivity|discriminate Ff].
+Qed.
+
 Lemma cstep_getstart s it s' o l f :
   cstep s it = (s', o) -> In (CGetStart l f) o ->
   l = highest s \/
-  (f = false /\ exists w t, i_ev it = EXLog w (XCommit t) /\ i_blocked it <> [] /\ l = N.max (highest s) w).
+  (exists w t, i_ev it = EXLog w (XCommit t) /\ i_blocked it <> [] /\ l = N.max (highest s) w /\
+               (f = true -> i_dies it = true)).
 Proof.
   intros H I. step3 H; try (simpl in I; repeat (destruct I as [I|I]; [discriminate I|]); contradiction).
   apply in_app_or in I. destruct I as [I|I].
   - left. destruct (head_out_shape s it) as (pre & E & P & _). rewrite E in I.
     apply in_app_or in I. destruct I as [I|[I|[]]]; [|discriminate I].
     destruct (P _ I) as [[f' E']|E']; inversion E'; reflexivity.
-  - apply ev_out_getstart in I. destruct I as [[E|E] Ff]; [now left|right].
-    split; [|exact E]. destruct f; [|reflexivity]. specialize (Ff eq_refl). discriminate Ff.
+  - apply ev_out_getstart in I. rewrite recv_highest, recv_conn_open in I.
+    destruct I as [[E|(w & t & Ev & Ne & E)] Ff]; [now left|right].
+    exists w, t. repeat split; auto. intros Hf. specialize (Ff Hf).
+    destruct (i_dies it); [reflexivity|discriminate Ff].
 Qed.
 
-(* a request that issues START_REPLICATION always carries the loop-head value *)
+(* a request that issues START_REPLICATION carries the loop-head value - or, when the connection
+   died at this message boundary while a COMMIT is held in the blocked-output loop, the position
+   of that COMMIT (if higher): always the end of the last transaction whose COMMIT was received *)
 Lemma cstep_getstart_fresh s it s' o l :
-  cstep s it = (s', o) -> In (CGetStart l true) o -> l = highest s.
+  cstep s it = (s', o) -> In (CGetStart l true) o ->
+  l = highest s \/
+  (i_dies it = true /\ exists w t, i_ev it = EXLog w (XCommit t) /\ i_blocked it <> [] /\
+                                   l = N.max (highest s) w).
 Proof.
-  intros H I. destruct (cstep_getstart _ _ _ _ _ _ H I) as [E|[E _]]; [exact E|discriminate E].
+  intros H I. destruct (cstep_getstart _ _ _ _ _ _ H I) as [E|(w & t & Ev & Ne & E & Ff)]; [now left|right].
+  split; [exact (Ff eq_refl)|eauto].
 Qed.
 
 Lemma cstart_highest first : highest (fst (cstart first)) = 0%N.
@@ -534,42 +609,64 @@ Lemma crun_restart_lsn first its1 it its2 s' o l f :
   cstep (fst (crun first its1)) it = (s', o) ->
   In (CGetStart l f) o ->
   (l = hi_spec 0 (map i_ev its1) \/
-   (f = false /\ i_blocked it <> [] /\ (exists w t, i_ev it = EXLog w (XCommit t)) /\
-    l = hi_spec 0 (map i_ev (its1 ++ [it])))) /\
-  (f = true -> l = hi_spec 0 (map i_ev its1)) /\
+   (i_blocked it <> [] /\ (exists w t, i_ev it = EXLog w (XCommit t)) /\
+    l = hi_spec 0 (map i_ev (its1 ++ [it])) /\ (f = true -> i_dies it = true))) /\
   snd (crun first (its1 ++ it :: its2)) = snd (crun first its1) ++ o ++ snd (citers s' its2).
 Proof.
-  intros R H I. split; [|split].
+  intros R H I. split.
   - rewrite <- (crun_highest first its1 R).
-    destruct (cstep_getstart _ _ _ _ _ _ H I) as [E|(Ef & w & t & Ev & Ne & E)]; [now left|right].
+    destruct (cstep_getstart _ _ _ _ _ _ H I) as [E|(w & t & Ev & Ne & E & Ff)]; [now left|right].
     repeat split; eauto. rewrite map_app. cbn [map]. rewrite hi_spec_snoc, Ev. cbn [hi_ev].
     rewrite <- (crun_highest first its1 R). exact E.
-  - intros ->. rewrite <- (crun_highest first its1 R). eapply cstep_getstart_fresh; eassumption.
   - rewrite crun_split, H. reflexivity.
+Qed.
+
+(* run level, split at the receive of iteration k (= after [its1]) of a running client: every
+   connection request before the receive carries hi_spec of the events received in iterations
+   0..k-1; every one after it carries hi_spec of the events 0..k, the one just received
+   included; one after the receive is fresh only if the connection died at this message boundary *)
+Lemma crun_restart_split first its1 it s' o :
+  stopped (fst (crun first its1)) = false -> i_pclosed it = false ->
+  cstep (fst (crun first its1)) it = (s', o) ->
+  exists pre post, o = pre ++ CRecv :: post /\ ~ In CRecv pre /\ ~ In CRecv post /\
+    (forall l f, In (CGetStart l f) pre -> l = hi_spec 0 (map i_ev its1)) /\
+    (forall l f, In (CGetStart l f) post ->
+       l = hi_spec 0 (map i_ev (its1 ++ [it])) /\ (f = true -> i_dies it = true)).
+Proof.
+  intros R Pc H.
+  destruct (cstep_getstart_split _ _ _ _ H R Pc) as (pre & post & E & N1 & N2 & P1 & P2).
+  exists pre, post. split; [exact E|]. split; [exact N1|]. split; [exact N2|]. split.
+  - intros l f I. rewrite <- (crun_highest first its1 R). apply (P1 l f I).
+  - intros l f I. destruct (P2 l f I) as [El Ff]. split; [|exact Ff].
+    rewrite map_app. cbn [map]. rewrite hi_spec_snoc, <- (crun_highest first its1 R). exact El.
 Qed.
 
 (* ---- START_REPLICATION is issued only when the manager holds no live connection ---- *)
 Lemma cstep_fresh s it s' o l :
-  cstep s it = (s', o) -> In (CGetStart l true) o -> conn_open s = false.
+  cstep s it = (s', o) -> In (CGetStart l true) o -> conn_open s = false \/ i_dies it = true.
 Proof.
   intros H I. step3 H; try (simpl in I; repeat (destruct I as [I|I]; [discriminate I|]); contradiction).
   apply in_app_or in I. destruct I as [I|I].
-  - destruct (head_out_shape s it) as (pre & E & _ & P). rewrite E in I.
+  - left. destruct (head_out_shape s it) as (pre & E & _ & P). rewrite E in I.
     apply in_app_or in I. destruct I as [I|[I|[]]]; [|discriminate I]. eapply P; eassumption.
-  - apply ev_out_getstart in I. destruct I as [_ I]. specialize (I eq_refl). simpl in I. discriminate.
+  - right. apply ev_out_getstart in I. destruct I as [_ I]. specialize (I eq_refl).
+    rewrite recv_conn_open in I. destruct (i_dies it); [reflexivity|discriminate I].
 Qed.
 
 Lemma cstep_conn_closes s it s' o :
   cstep s it = (s', o) -> conn_open s' = false ->
   stopped s' = true \/ i_ev it = EClosedErr \/
   (exists w t, i_ev it = EXLog w (XBegin t) /\ saw_commit s = false /\ first_iter s = false /\ In CClose o) \/
-  (exists x, i_ev it = EErrorResponse x).
+  (exists x, i_ev it = EErrorResponse x) \/
+  i_dies it = true.
 Proof.
   intros H C. step3 H; auto.
+  destruct (i_dies it) eqn:D; [auto 6|].
   revert C. generalize (head_out s it). intros ho.
-  pose proof (head_state_fields s it) as (_ & _ & _ & _ & Fs & Ff & Fc & _).
-  revert Fs Ff Fc. generalize (head_state s it). intros s2 Fs Ff Fc.
-  ev_an; intros C; auto; try congruence; eauto;
+  pose proof (recv_state_fields s it) as (_ & _ & _ & _ & Fs & Ff & Fc & _). rewrite D in Fc. cbn [negb] in Fc.
+  revert Fs Ff Fc. generalize (recv_state s it). intros s2 Fs Ff Fc.
+  ev_an; intros C; auto; try congruence;
+  try (right; right; right; left; eexists; reflexivity);
   try (rewrite bt_conn_open in C by (cbn [conn_open]; exact Fc); discriminate C).
   right; right; left. exists w, t. rewrite <- Fs, <- Ff.
   apply andb_prop in Heqb. destruct Heqb as [B1 B2].
@@ -586,7 +683,7 @@ Definition erase_ev (e : cev) : cev :=
   | e => e
   end.
 Definition erase_it (it : citer) : citer :=
-  mkIter (i_tick it) (i_prog it) (i_pclosed it) (erase_ev (i_ev it)) (i_prog2 it) (i_pclosed2 it) (i_blocked it).
+  mkIter (i_tick it) (i_prog it) (i_pclosed it) (erase_ev (i_ev it)) (i_prog2 it) (i_pclosed2 it) (i_blocked it) (i_dies it).
 
 Definition ev_positions (e : cev) : list N :=
   match e with EXLog w _ => [w] | EKeepalive w _ _ => [w] | EErrorResponse x => [x] | _ => [] end.
@@ -656,7 +753,7 @@ Lemma ev_step_forget s2 t2 it : forget s2 = forget t2 ->
   forget (fst (ev_step s2 it)) = forget (fst (ev_step t2 (erase_it it))) /\
   acks (snd (ev_step s2 it)) = acks (snd (ev_step t2 (erase_it it))).
 Proof.
-  intros H. unfold ev_step. cbn [erase_it i_ev i_blocked i_prog2 i_pclosed2].
+  intros H. unfold ev_step. cbn [erase_it i_ev i_blocked i_prog2 i_pclosed2 i_dies].
   destruct (i_ev it) as [w k| w [|] sl | | | | | | x | | |]; cbn [erase_ev].
   1: { destruct (handle_xlog_forget s2 t2 w k (i_blocked it) H) as (F & A & E).
        destruct (handle_xlog s2 w k (i_blocked it)) as [[s3 o3] f].
@@ -680,12 +777,12 @@ Proof.
   change (i_pclosed (erase_it it)) with (i_pclosed it).
   destruct (i_pclosed it).
   - simpl. split; [|reflexivity]. destruct s, t. unfold forget in *. simpl in *. inversion H; subst. reflexivity.
-  - assert (H2 : forget (head_state s it) = forget (head_state t (erase_it it))).
-    { unfold head_state, hp_val. simpl. rewrite Ho. destruct s, t. unfold forget in *. simpl in *.
-      inversion H; subst. reflexivity. }
+  - assert (H2 : forget (recv_state s it) = forget (recv_state t (erase_it it))).
+    { unfold recv_state, head_state, hp_val. simpl. rewrite Ho. destruct s, t. unfold forget in *. simpl in *.
+      inversion H; subst. destruct (i_dies it); reflexivity. }
     destruct (ev_step_forget _ _ it H2) as [F A].
-    destruct (ev_step (head_state s it) it) as [s3 o3].
-    destruct (ev_step (head_state t (erase_it it)) (erase_it it)) as [t3 p3]. simpl in *.
+    destruct (ev_step (recv_state s it) it) as [s3 o3].
+    destruct (ev_step (recv_state t (erase_it it)) (erase_it it)) as [t3 p3]. simpl in *.
     split; [exact F|]. rewrite !acks_app, A. f_equal.
     unfold head_out, head_sends, hp_upd, hp_val. simpl. rewrite Ho.
     destruct (snd (absorb (overall t) (i_prog it)) || i_tick it); reflexivity.
@@ -818,8 +915,11 @@ Qed.
 
 (* (the state handed to the handlers is the one after the loop-head handleProgress: same as [s]
    except that [overall] has absorbed the values waiting on the progress channel) *)
-Lemma write_fails_head s it : write_fails (head_state s it) it = write_fails s it.
-Proof. reflexivity. Qed.
+Lemma write_fails_head s it : write_fails (recv_state s it) it = write_fails s it.
+Proof. unfold recv_state. destruct (i_dies it); reflexivity. Qed.
+
+Lemma ev_couts_recv s it e : ev_couts (recv_state s it) e = ev_couts (head_state s it) e.
+Proof. unfold recv_state. destruct (i_dies it); reflexivity. Qed.
 
 Lemma cstep_couts s it :
   couts (snd (cstep s it)) =
@@ -828,7 +928,7 @@ Proof.
   destruct (stopped s) eqn:R; [rewrite cstep_stopped by assumption; reflexivity|].
   destruct (i_pclosed it) eqn:Pc; [rewrite cstep_pclosed by assumption; reflexivity|].
   rewrite cstep_consumed by assumption. simpl.
-  rewrite couts_app, head_out_couts, ev_step_couts, write_fails_head. reflexivity.
+  rewrite couts_app, head_out_couts, ev_step_couts, write_fails_head, ev_couts_recv. reflexivity.
 Qed.
 
 (* when the WriteLoop fails the client stops in this iteration *)
@@ -866,7 +966,8 @@ Lemma cstep_stamp s it :
 Proof.
   destruct (stopped s) eqn:R; [rewrite cstep_stopped by assumption; reflexivity|].
   destruct (i_pclosed it) eqn:Pc; [rewrite cstep_pclosed by assumption; reflexivity|].
-  rewrite cstep_consumed by assumption. simpl. rewrite ev_step_stamp. reflexivity.
+  rewrite cstep_consumed by assumption. simpl. rewrite ev_step_stamp.
+  unfold recv_state. destruct (i_dies it); reflexivity.
 Qed.
 
 Lemma stamp_ev_begins_ge st e : (snd st <= snd (stamp_ev st e))%N.
@@ -1132,7 +1233,8 @@ Lemma cstep_flags s it :
 Proof.
   destruct (stopped s) eqn:R; [rewrite cstep_stopped by assumption; reflexivity|].
   destruct (i_pclosed it) eqn:Pc; [rewrite cstep_pclosed by assumption; reflexivity|].
-  rewrite cstep_consumed by assumption. simpl. rewrite ev_step_flags. reflexivity.
+  rewrite cstep_consumed by assumption. simpl. rewrite ev_step_flags.
+  unfold recv_state. destruct (i_dies it); reflexivity.
 Qed.
 
 Lemma cstart_flags first : flags_of (fst (cstart first)) = (true, false).
@@ -1307,10 +1409,11 @@ Proof.
   destruct (stopped s) eqn:R; [rewrite cstep_stopped by assumption; simpl; auto|].
   destruct (i_pclosed it) eqn:Pc; [rewrite cstep_pclosed by assumption; simpl; split; [reflexivity|now left]|].
   rewrite cstep_consumed by assumption. cbn [fst snd].
-  destruct (scope_app (head_out s it) c (snd (ev_step (head_state s it) it))) as [E1 E2]. rewrite E1, E2.
+  destruct (scope_app (head_out s it) c (snd (ev_step (recv_state s it) it))) as [E1 E2]. rewrite E1, E2.
   assert (Hh : scope_ok c (head_out s it) = true /\ scope_end c (head_out s it) = c).
   { unfold head_out. destruct (head_sends s it); split; reflexivity. }
-  destruct Hh as [-> ->]. simpl. apply ev_step_scope; assumption.
+  destruct Hh as [-> ->]. simpl. apply ev_step_scope; [assumption|].
+  unfold scope_rel, recv_state in *. destruct (i_dies it); exact Rl.
 Qed.
 
 Lemma citers_scope its : forall s c, script_ok its = true -> scope_rel c s ->
@@ -1378,14 +1481,27 @@ Lemma cstep_begin_without_commit s it s' o w t :
   ctxn s' = t /\ ckey s' = key_of t (begins s).
 Proof.
   intros R Pc Sc Fi Ev H. rewrite (cstep_consumed _ _ R Pc) in H. inversion H; subst; clear H.
-  rewrite couts_app, head_out_couts. unfold ev_step, handle_xlog. rewrite Ev.
-  change (saw_commit (head_state s it)) with (saw_commit s).
-  change (first_iter (head_state s it)) with (first_iter s). rewrite Sc, Fi. simpl.
+  rewrite couts_app, head_out_couts. unfold ev_step, handle_xlog, recv_state. rewrite Ev.
+  destruct (i_dies it);
+  cbn [saw_commit first_iter set_conn head_state set_overall]; rewrite Sc, Fi; simpl;
   repeat split; reflexivity.
 Qed.
 
+(* the connection the manager holds after the blocked-output loop: a tick that sends reconnects *)
+Definition blocked_conn (conn : bool) (bl : list (list N * bool)) : bool :=
+  match bl with (_, false) :: _ => true | _ => conn end.
+
+Lemma bt_conn_exact bl : forall s, blocked_closed bl = false ->
+  conn_open (bt_state s bl) = blocked_conn (conn_open s) bl.
+Proof.
+  destruct bl as [|[vs closed] bl]; intros s C; [reflexivity|].
+  cbn [blocked_closed existsb snd] in C. apply orb_false_elim in C. destruct C as [-> _].
+  cbn [bt_state blocked_conn]. apply bt_conn_open. reflexivity.
+Qed.
+
 (* the BEGIN is accepted: the state is stamped, then the WriteLoop serves the ticks that fire while
-   the output channel is full (one connection request - never a fresh one - and one status update
+   the output channel is full (one connection request - a fresh one only if the connection died
+   at this message boundary, and then only the first - and one status update
    each) and hands the BEGIN over; if one of those ticks finds the progress channel closed the
    BEGIN is NOT forwarded and the client stops (Close, Stop).  With [i_blocked it = []] this is:
    o = head_out s it ++ [COut "BEGIN" ...], connection kept, client running. *)
@@ -1393,24 +1509,25 @@ Lemma cstep_begin_accepted s it s' o w t :
   stopped s = false -> i_pclosed it = false ->
   saw_commit s = true \/ first_iter s = true ->
   i_ev it = EXLog w (XBegin t) -> cstep s it = (s', o) ->
-  o = head_out s it ++ blocked_obs (highest s) true (hp_val s (i_prog it)) (i_blocked it) ++
+  o = head_out s it ++ blocked_obs (highest s) (negb (i_dies it)) (hp_val s (i_prog it)) (i_blocked it) ++
       (if blocked_closed (i_blocked it) then [CClose; CStop] else [COut "BEGIN" t (key_of t (begins s)) w]) /\
-  conn_open s' = negb (blocked_closed (i_blocked it)) /\
+  conn_open s' = (if blocked_closed (i_blocked it) then false
+                  else blocked_conn (negb (i_dies it)) (i_blocked it)) /\
   highest s' = highest s /\ first_iter s' = false /\ saw_commit s' = false /\
   stopped s' = blocked_closed (i_blocked it) /\
   ctxn s' = t /\ ckey s' = key_of t (begins s).
 Proof.
   intros R Pc Sf Ev H. rewrite (cstep_consumed _ _ R Pc) in H. inversion H; subst; clear H.
-  unfold ev_step, handle_xlog, write_loop. rewrite Ev.
-  change (saw_commit (head_state s it)) with (saw_commit s).
-  change (first_iter (head_state s it)) with (first_iter s).
   assert (E : negb (saw_commit s) && negb (first_iter s) = false).
   { destruct Sf as [-> | ->]; simpl; [reflexivity|apply andb_false_r]. }
-  rewrite E, blocked_ticks_eq. cbv beta iota.
-  destruct (blocked_closed (i_blocked it)); unfold fatal;
+  unfold ev_step, handle_xlog, write_loop, recv_state. rewrite Ev.
+  destruct (i_dies it);
+  cbn [saw_commit first_iter set_conn head_state set_overall];
+  rewrite E, blocked_ticks_eq; cbv beta iota;
+  destruct (blocked_closed (i_blocked it)) eqn:Bc; unfold fatal;
     cbn [fst snd stop conn_open highest first_iter saw_commit stopped ctxn ckey negb];
     rewrite ?bt_highest, ?bt_first_iter, ?bt_saw_commit, ?bt_stopped, ?bt_ctxn, ?bt_ckey;
-    rewrite ?bt_conn_open by reflexivity;
+    rewrite ?(bt_conn_exact _ _ Bc);
     repeat split; reflexivity.
 Qed.
 
@@ -1456,16 +1573,16 @@ Lemma cstep_keepalive_reply s it s' o w sl :
   cstep s it = (s', o) ->
   (i_pclosed2 it = true /\ o = head_pre s it ++ CRecv :: [CClose; CStop] /\ stopped s' = true) \/
   (i_pclosed2 it = false /\
-   o = head_pre s it ++ CRecv :: [CGetStart (highest s) false; CSend (overall s')] ++
+   o = head_pre s it ++ CRecv :: [CGetStart (highest s) (i_dies it); CSend (overall s')] ++
        (if rapid s sl then [CClose; CStop] else []) /\
    stopped s' = rapid s sl /\ overall s' = hp_val (head_state s it) (i_prog2 it)).
 Proof.
   intros R Pc Ev H. rewrite (cstep_consumed _ _ R Pc) in H. inversion H; subst; clear H.
-  rewrite head_out_pre, <- app_assoc. unfold ev_step. rewrite Ev.
-  destruct (i_pclosed2 it); [left; repeat split; reflexivity|right].
-  unfold prog2, heartbeat, rapid, fatal. simpl.
-  destruct (negb (hb_slow s || sl) && (5 <? hb_count s + 1)%N); [|destruct (5 <? hb_count s + 1)%N];
-    simpl; rewrite ?R; repeat split; reflexivity.
+  rewrite head_out_pre, <- app_assoc. unfold ev_step, recv_state. rewrite Ev.
+  destruct (i_pclosed2 it); [left; destruct (i_dies it); repeat split; reflexivity|right].
+  unfold prog2, heartbeat, rapid, fatal. destruct (i_dies it); simpl;
+  (destruct (negb (hb_slow s || sl) && (5 <? hb_count s + 1)%N); [|destruct (5 <? hb_count s + 1)%N];
+    simpl; rewrite ?R; repeat split; reflexivity).
 Qed.
 
 Lemma cstep_timeout s it s' o :
@@ -1473,13 +1590,13 @@ Lemma cstep_timeout s it s' o :
   cstep s it = (s', o) ->
   (i_pclosed2 it = true /\ o = head_pre s it ++ CRecv :: [CClose; CStop] /\ stopped s' = true) \/
   (i_pclosed2 it = false /\
-   o = head_pre s it ++ CRecv :: [CGetStart (highest s) false; CSend (overall s')] /\
+   o = head_pre s it ++ CRecv :: [CGetStart (highest s) (i_dies it); CSend (overall s')] /\
    stopped s' = false /\ overall s' = hp_val (head_state s it) (i_prog2 it)).
 Proof.
   intros R Pc Ev H. rewrite (cstep_consumed _ _ R Pc) in H. inversion H; subst; clear H.
-  rewrite head_out_pre, <- app_assoc. unfold ev_step. rewrite Ev.
-  destruct (i_pclosed2 it); [left; repeat split; reflexivity|right].
-  unfold prog2. simpl. rewrite R. repeat split; reflexivity.
+  rewrite head_out_pre, <- app_assoc. unfold ev_step, recv_state. rewrite Ev.
+  destruct (i_pclosed2 it); [left; destruct (i_dies it); repeat split; reflexivity|right].
+  unfold prog2. destruct (i_dies it); simpl; rewrite R; repeat split; reflexivity.
 Qed.
 
 Lemma cstep_tick s it s' o :
@@ -1490,16 +1607,20 @@ Lemma cstep_tick s it s' o :
                (overall s <= hp_val s (i_prog it))%N.
 Proof.
   intros R Pc Tk H. rewrite (cstep_consumed _ _ R Pc) in H. inversion H; subst; clear H.
-  exists (snd (ev_step (head_state s it) it)). split; [|split; [apply ev_out_no_recv|apply hp_val_ge]].
+  exists (snd (ev_step (recv_state s it) it)). split; [|split; [apply ev_out_no_recv|apply hp_val_ge]].
   unfold head_out, head_sends. rewrite Tk, orb_true_r. reflexivity.
 Qed.
 
 (* ---------- the blocked-output loop inside an iteration ---------- *)
-Lemma blocked_obs_shape h bl : forall cur x, In x (blocked_obs h true cur bl) ->
-  x = CGetStart h false \/ exists v, x = CSend v.
+Lemma blocked_obs_shape h bl : forall conn cur x, In x (blocked_obs h conn cur bl) ->
+  (exists f, x = CGetStart h f /\ (f = true -> conn = false)) \/ exists v, x = CSend v.
 Proof.
-  induction bl as [|[vs closed] bl IH]; intros cur x; cbn [blocked_obs]; [intros []|].
-  destruct closed; [intros []|]. intros [<-|[<-|I]]; [now left|right; eauto|eapply IH; exact I].
+  induction bl as [|[vs closed] bl IH]; intros conn cur x; cbn [blocked_obs]; [intros []|].
+  destruct closed; [intros []|]. intros [<-|[<-|I]].
+  - left. exists (negb conn). split; [reflexivity|]. now destruct conn.
+  - right; eauto.
+  - destruct (IH _ _ _ I) as [(f & E & Ff)|Hv]; [left|now right].
+    exists f. split; [exact E|]. intros Hf. specialize (Ff Hf). discriminate Ff.
 Qed.
 
 (* An XLogData message that is to be forwarded (handleXLogData reaches its WriteLoop), received
@@ -1507,24 +1628,25 @@ Qed.
    and status updates of the ticks served while the output channel is full, then the message -
    or, if one of those ticks finds the progress channel closed, Close, Stop instead of the
    message.  The connection requests carry highestWalStart as already advanced by a held COMMIT
-   (= [highest s']). *)
+   (= [highest s']); the first of them is a fresh one (START_REPLICATION at that position) iff the
+   connection died at this message boundary. *)
 Lemma cstep_write_loop s it s' o :
   stopped s = false -> i_pclosed it = false -> reaches_write_loop s (i_ev it) = true ->
   cstep s it = (s', o) ->
   exists m, ev_couts (head_state s it) (i_ev it) = [m] /\
-    o = head_pre s it ++ CRecv :: blocked_obs (highest s') true (hp_val s (i_prog it)) (i_blocked it) ++
+    o = head_pre s it ++ CRecv :: blocked_obs (highest s') (negb (i_dies it)) (hp_val s (i_prog it)) (i_blocked it) ++
         (if blocked_closed (i_blocked it) then [CClose; CStop] else [m]) /\
     acks o = (if head_sends s it then [hp_val s (i_prog it)] else []) ++
-             acks (blocked_obs (highest s') true (hp_val s (i_prog it)) (i_blocked it)) /\
+             acks (blocked_obs (highest s') (negb (i_dies it)) (hp_val s (i_prog it)) (i_blocked it)) /\
     stopped s' = blocked_closed (i_blocked it) /\
     overall s' = blocked_val (hp_val s (i_prog it)) (i_blocked it).
 Proof.
   intros R Pc Hr H. rewrite (cstep_consumed _ _ R Pc) in H. inversion H; subst; clear H.
   assert (Ha : acks (head_pre s it) = if head_sends s it then [hp_val s (i_prog it)] else []).
   { unfold head_pre. destruct (head_sends s it); reflexivity. }
-  unfold reaches_write_loop in Hr. unfold ev_step, ev_couts, handle_xlog, write_loop.
-  change (saw_commit (head_state s it)) with (saw_commit s).
-  change (first_iter (head_state s it)) with (first_iter s).
+  unfold reaches_write_loop in Hr. unfold ev_step, ev_couts, handle_xlog, write_loop, recv_state.
+  destruct (i_dies it);
+  cbn [saw_commit first_iter set_conn head_state set_overall negb];
   destruct (i_ev it) as [w [t|t|op| |]| w [|] sl | | | | | | x | | |]; try discriminate Hr;
   try (apply negb_true_iff in Hr; rewrite Hr);
   rewrite blocked_ticks_eq; cbv beta iota;
@@ -1545,7 +1667,7 @@ Proof.
   intros R H. destruct (i_pclosed it) eqn:Pc.
   - rewrite (cstep_pclosed _ _ R Pc) in H. inversion H; subst. left. auto.
   - rewrite (cstep_consumed _ _ R Pc) in H. inversion H; subst; clear H. right. split; [reflexivity|].
-    exists (head_pre s it), (snd (ev_step (head_state s it) it)).
+    exists (head_pre s it), (snd (ev_step (recv_state s it) it)).
     rewrite head_out_pre, <- app_assoc. split; [reflexivity|].
     split; [apply head_pre_no_recv|apply ev_out_no_recv].
 Qed.
@@ -1570,9 +1692,10 @@ Proof.
   - rewrite (cstep_pclosed _ _ R Pc) in H. inversion H; subst. simpl.
     split; [split; auto|intros _; now exists []].
   - rewrite (cstep_consumed _ _ R Pc) in H. inversion H; subst; clear H.
-    destruct (ev_step_stop (head_state s it) it R) as [A B].
-    assert (E : In CStop (head_out s it ++ snd (ev_step (head_state s it) it)) <->
-                In CStop (snd (ev_step (head_state s it) it))).
+    assert (R2 : stopped (recv_state s it) = false) by (rewrite recv_stopped; exact R).
+    destruct (ev_step_stop (recv_state s it) it R2) as [A B].
+    assert (E : In CStop (head_out s it ++ snd (ev_step (recv_state s it) it)) <->
+                In CStop (snd (ev_step (recv_state s it) it))).
     { rewrite in_app_iff, head_out_pre, in_app_iff. pose proof (head_pre_no_stop s it) as Np.
       split; [intros [[?|[?|[]]]|?]; [contradiction|discriminate|assumption]|auto]. }
     split; [rewrite E; exact A|]. intros I. apply E in I. destruct (B I) as [pre Ep].
@@ -1604,7 +1727,7 @@ Proof.
     + intros I. repeat (destruct I as [I|I]; [discriminate I|]). exact I.
     + right. split; [simpl; auto|]. unfold rest. rewrite citers_stopped by exact St. reflexivity.
   - exists (o0 ++ head_pre s0 it),
-           ([CGetStart (highest s0) false; CSend (overall s')] ++ (if rapid s0 sl then [CClose; CStop] else [])).
+           ([CGetStart (highest s0) (i_dies it); CSend (overall s')] ++ (if rapid s0 sl then [CClose; CStop] else [])).
     split; [|split].
     + rewrite E, <- !app_assoc. reflexivity.
     + destruct (rapid s0 sl); intros I; repeat (destruct I as [I|I]; [discriminate I|]); exact I.
@@ -1840,8 +1963,9 @@ Lemma cstep_blocked_tick_sends s it s' o :
   exists m sends,
     ev_couts (head_state s it) (i_ev it) = [m] /\
     o = head_pre s it ++ CRecv :: sends ++ [m] /\
-    sends = blocked_obs (highest s') true (hp_val s (i_prog it)) (i_blocked it) /\
-    (forall x, In x sends -> x = CGetStart (highest s') false \/ exists v, x = CSend v) /\
+    sends = blocked_obs (highest s') (negb (i_dies it)) (hp_val s (i_prog it)) (i_blocked it) /\
+    (forall x, In x sends ->
+       (exists f, x = CGetStart (highest s') f /\ (f = true -> i_dies it = true)) \/ exists v, x = CSend v) /\
     List.length (acks sends) = List.length (i_blocked it) /\
     List.length (acks o) = ((if head_sends s it then 1 else 0) + List.length (i_blocked it))%nat /\
     stopped s' = false /\
@@ -1850,9 +1974,10 @@ Proof.
   intros R Pc Hr Hc H.
   destruct (cstep_write_loop s it s' o R Pc Hr H) as (m & Em & Eo & Ea & Es & Ev).
   rewrite Hc in Eo, Es.
-  exists m, (blocked_obs (highest s') true (hp_val s (i_prog it)) (i_blocked it)).
+  exists m, (blocked_obs (highest s') (negb (i_dies it)) (hp_val s (i_prog it)) (i_blocked it)).
   repeat split; try assumption.
-  - apply blocked_obs_shape.
+  - intros x I. destruct (blocked_obs_shape _ _ _ _ _ I) as [(f & E & Ff)|Hv]; [left|now right].
+    exists f. split; [exact E|]. intros Hf. specialize (Ff Hf). now destruct (i_dies it).
   - apply blocked_obs_count. exact Hc.
   - rewrite Ea, app_length, (blocked_obs_count _ _ _ _ Hc). destruct (head_sends s it); reflexivity.
 Qed.
@@ -1863,7 +1988,7 @@ Lemma cstep_blocked_channel_closed s it s' o :
   stopped s = false -> i_pclosed it = false ->
   reaches_write_loop s (i_ev it) = true -> blocked_closed (i_blocked it) = true ->
   cstep s it = (s', o) ->
-  o = head_pre s it ++ CRecv :: blocked_obs (highest s') true (hp_val s (i_prog it)) (i_blocked it) ++ [CClose; CStop] /\
+  o = head_pre s it ++ CRecv :: blocked_obs (highest s') (negb (i_dies it)) (hp_val s (i_prog it)) (i_blocked it) ++ [CClose; CStop] /\
   couts o = [] /\ stopped s' = true.
 Proof.
   intros R Pc Hr Hc H.
@@ -1871,4 +1996,43 @@ Proof.
   rewrite Hc in Eo, Es. repeat split; try assumption.
   pose proof (cstep_couts s it) as C. rewrite H in C. cbn [snd] in C.
   unfold write_fails in C. rewrite Hr, Hc, R, Pc in C. exact C.
+Qed.
+
+(* ================================================================================== *)
+(* 9. The connection dies silently at a message boundary                               *)
+(* ================================================================================== *)
+(* run level: in iteration k (= after [its1]) of a running client, a request that issues
+   START_REPLICATION before the receive carries hi_spec of the events received in iterations
+   0..k-1; one issued after the receive exists only if the connection died at this message
+   boundary and carries hi_spec of the events 0..k - the event just received INCLUDED: if that is a
+   COMMIT held in the blocked-output loop, the reconnect asks for the end of that transaction *)
+Lemma crun_restart_after_silent_death first its1 it s' o :
+  stopped (fst (crun first its1)) = false -> i_pclosed it = false ->
+  cstep (fst (crun first its1)) it = (s', o) ->
+  exists pre post, o = pre ++ CRecv :: post /\ ~ In CRecv pre /\ ~ In CRecv post /\
+    (forall l, In (CGetStart l true) pre -> l = hi_spec 0 (map i_ev its1)) /\
+    (forall l, In (CGetStart l true) post ->
+       i_dies it = true /\ l = hi_spec 0 (map i_ev (its1 ++ [it]))).
+Proof.
+  intros R Pc H.
+  destruct (crun_restart_split first its1 it s' o R Pc H) as (pre & post & E & N1 & N2 & P1 & P2).
+  exists pre, post. split; [exact E|]. split; [exact N1|]. split; [exact N2|]. split.
+  - intros l I. exact (P1 l true I).
+  - intros l I. destruct (P2 l true I) as [El Ff]. split; [exact (Ff eq_refl)|exact El].
+Qed.
+
+(* existence: a COMMIT is received, the connection dies at that boundary, the output channel is
+   full and the first tick finds the progress channel open: the very next observation after the
+   receive is START_REPLICATION at the end of that COMMIT's transaction (or the higher position
+   already held) *)
+Lemma cstep_silent_death_reconnects s it s' o w t vs r :
+  stopped s = false -> i_pclosed it = false -> i_ev it = EXLog w (XCommit t) -> i_dies it = true ->
+  i_blocked it = (vs, false) :: r -> cstep s it = (s', o) ->
+  exists post, o = head_pre s it ++ CRecv :: CGetStart (N.max (highest s) w) true :: post.
+Proof.
+  intros R Pc Ev D Bl H.
+  assert (Hr : reaches_write_loop s (i_ev it) = true) by (rewrite Ev; reflexivity).
+  destruct (cstep_write_loop s it s' o R Pc Hr H) as (m & _ & Eo & _).
+  pose proof (cstep_highest s it) as Hh. rewrite H, R, Pc, Ev in Hh. cbn [fst orb hi_ev] in Hh.
+  rewrite Eo, Bl, D, Hh. cbn [blocked_obs negb app]. eexists. reflexivity.
 Qed.
